@@ -300,6 +300,39 @@ func checkC08(e *Env) {
 		mu.Unlock()
 	})
 
+	// the list read back through an arena: the 2048 entropies whose first 11 bits are 0..2047 lie
+	// back to back in ONE caller-owned buffer and are encoded one after the other (a caller
+	// that carves its entropies out of a larger buffer must see the same list)
+	arenaWords := 0
+	parallel(ref.NLang, e.Workers, func(lang int) {
+		r := rng.New(e.Seed, "C08-arena-"+itoa(lang))
+		buf := make([]byte, 0, 2048*16)
+		for i := 0; i < 2048; i++ {
+			first := make([]int, 11)
+			for k := range first {
+				first[k] = r.Intn(2048)
+			}
+			first[0] = i
+			buf = append(buf, entropyFromIndices(16, first, r.Intn(128))...)
+		}
+		op := plan.Op{Fn: "encslab", L: int64(lang), N: 16, E: hx(buf)}
+		res, died := e.RunProc(drv, []plan.Op{op}, nil, 0)
+		if died != "" || len(res) != 1 || res[0].Panic != "" {
+			return // crashes are not C08's subject
+		}
+		sents := strings.Split(string(unhex(res[0].Out)), "\n")
+		for i := 0; i < 2048 && i < len(sents); i++ {
+			if w := strings.Split(sents[i], ref.Sep(lang))[0]; w != e.Model.List[lang][i] {
+				e.Violate(&Violation{What: fmt.Sprintf("%s list read back through one caller-owned buffer holding the 2048 entropies back to back: the entropy whose first 11 bits are %d emits %s, the canonical word is %s", ref.Names[lang], i, preview(w), preview(e.Model.List[lang][i])),
+					Ops: []plan.Op{op}, Expected: map[string]string{"word": e.Model.List[lang][i]}, Observed: map[string]any{"window": i, "sentence": sents[i]}})
+				return
+			}
+		}
+		mu.Lock()
+		arenaWords += min(len(sents), 2048)
+		mu.Unlock()
+	})
+
 	// the concurrent flavour of this monitor (C12 is the full treatment)
 	ambiguousConc := newCounter()
 	concCalls := e.concurrentSmoke(drv, "C08", append(e.smokePool("C08", "chk"), e.smokePool("C08", "enc")...), e.pick(4, 12), e.pick(200, 1000), e.smokeListWords(ambiguousConc))
